@@ -6547,6 +6547,8 @@ class HCI_Extended_Event(HCI_Event):
         Factory method that parses the subevent code, finds a registered subclass,
         and creates an instance if found.
         """
+        if not parameters:
+            return None
         subevent_code = parameters[0]
         if subclass := cls.subevent_classes.get(subevent_code):
             return subclass.from_parameters(parameters)
